@@ -2,8 +2,9 @@
 import os, sys, json, time, hashlib, fnmatch, subprocess, tempfile, shutil
 
 VERIF = os.path.dirname(os.path.dirname(os.path.abspath(__file__)))
-EVID = os.path.join(VERIF, 'evidence')
-REPLAY = os.path.join(VERIF, 'replay')
+# XV_OUT: evidence/replay files of runs against scratch trees (seeded changes) go elsewhere, never over the evidence of /repo
+EVID = os.path.join(os.environ.get('XV_OUT') or VERIF, 'evidence')
+REPLAY = os.path.join(os.environ.get('XV_OUT') or VERIF, 'replay')
 KNOWN = os.path.join(VERIF, 'known_findings.json')
 NCPU = os.cpu_count() or 4
 
